@@ -27,7 +27,7 @@ ASSUMPTIONS = [
     "composite clauses are judged for composites whose elements share one labeling (m*n and m+m' over equal label arrays)",
     "pre-selected targets are existing non-negative labels",
 ]
-REQUIRED = {"composite_calls_with_preselected_elements": 300, "single_calls": 3000, "single_success": 1500, "single_fail_no_eligible": 100, "single_fail_veto": 100, "composite_calls": 1500, "composite_partial": 100, "preselected_calls": 300, "molecule_moves": 500, "negative_label_rows_watched": 1000}
+REQUIRED = {"single_fail_veto_under_constraint": 100, "composite_calls_with_preselected_elements": 300, "single_calls": 3000, "single_success": 1500, "single_fail_no_eligible": 100, "single_fail_veto": 100, "composite_calls": 1500, "composite_partial": 100, "preselected_calls": 300, "molecule_moves": 500, "negative_label_rows_watched": 1000}
 SHARD_TIMEOUT = {"quick": 900, "thorough": 3000}
 
 CALC_LOG: list = []
@@ -102,11 +102,19 @@ def judge_single(rec, move, ctx, pre, out):
             rec.count("single_fail_no_eligible")
         else:
             rec.count("single_fail_veto")
+            if ctx.atoms.constraints:
+                rec.count("single_fail_veto_under_constraint")
         if len(changed):
-            rec.viol("C11/single/failure-changed-positions", f"move reported failure but rows {changed.tolist()} changed", wit)
+            rec.viol("C11/single/failure-changed-positions" + ("/under-FixCom" if ctx.atoms.constraints else ""), f"move reported failure but rows {changed.tolist()} changed", wit)
         INNER.append((id(move), None, False, changed))
         return
     rec.count("single_success")
+    if ctx.atoms.constraints:
+        # "when no constraint interferes": with a coupling constraint (FixCom) a successful move legitimately shifts
+        # other atoms too; only the failure clause above is judged for such atoms
+        rec.count("single_success_under_constraint_not_judged")
+        INNER.append((id(move), move.displaced_labels if move.displaced_labels is None else int(move.displaced_labels), True, changed))
+        return
     if len(eligible) == 0 and pre["target"] is None:
         rec.viol("C11/single/success-without-eligible-particle", "move reported success although no atom has a non-negative label", wit)
         return
@@ -292,8 +300,13 @@ def run(spec):
         cell = np.diag(rng.uniform(6, 12, 3)) + np.tril(rng.uniform(-2, 2, (3, 3)), -1) * (rng.random() < 0.5)
         atoms = Atoms(["H", "C", "O", "Cu"][int(rng.integers(4))] + str(n), positions=rng.uniform(0, 6, (n, 3)), cell=cell, pbc=True)
         atoms.set_masses(rng.uniform(1, 60, n))
+        constrained = bool(rng.random() < 0.12)
+        if constrained:
+            from ase.constraints import FixCom
+
+            atoms.set_constraint(FixCom())  # couples all atoms: a vetoed attempt must be undone for every one of them
         ctx = DisplacementContext(atoms, np.random.Generator(np.random.PCG64(int(rng.integers(1, 2**62)))))
-        mode = rng.random()
+        mode = 0.0 if constrained else rng.random()
         vmode = "none"
         r = rng.random()
         if r < 0.12:
